@@ -36,6 +36,9 @@ type htask struct {
 	Lits  []string `json:"lits,omitempty"`
 	Globs []string `json:"globs,omitempty"`
 	Deps  []string `json:"deps,omitempty"`
+	// Effect: the task's commands write EffVal into file EffFile (index+1 into Files; 0 = no effect)
+	EffFile int    `json:"eff_file,omitempty"`
+	EffVal  string `json:"eff_val,omitempty"`
 }
 
 type hfile struct {
@@ -64,7 +67,11 @@ func (p hprog) text() string {
 		for _, l := range t.Lits {
 			deps = append(deps, `"`+l+`"`)
 		}
-		fmt.Fprintf(&sb, "task %s(%s) {\n    echo %s:1 >> \"$VLOG\"\n    test ! -e \"$VCTL/fail_%s\"\n    echo %s:3 >> \"$VLOG\"\n}\n\n", t.Name, strings.Join(deps, ", "), t.Name, t.Name, t.Name)
+		eff := ""
+		if t.EffFile > 0 {
+			eff = fmt.Sprintf("    echo %s > \"$VPROJ/%s\"\n", t.EffVal, p.Files[t.EffFile-1].Path)
+		}
+		fmt.Fprintf(&sb, "task %s(%s) {\n    echo %s:1 >> \"$VLOG\"\n    test ! -e \"$VCTL/fail_%s\"\n%s    echo %s:3 >> \"$VLOG\"\n}\n\n", t.Name, strings.Join(deps, ", "), t.Name, t.Name, eff, t.Name)
 	}
 	return sb.String()
 }
@@ -99,6 +106,12 @@ func histCatalogue() []hprog {
 		// a literal dependency that can go missing: the run then aborts with an error after earlier tasks have run
 		{Name: "P10-deletable-literal", Tasks: []htask{{Name: "ta", Lits: []string{"a.txt"}}, {Name: "tb", Lits: []string{"b.txt"}}},
 			Files: []hfile{lit("a.txt"), globf("b.txt", "v0", absent)}},
+		// commands that rewrite a dependency: 'fmt' rewrites the sources 'test' depends on ...
+		{Name: "P11-rewrites-shared-input", Tasks: []htask{{Name: "ta", Lits: []string{"g.txt"}, EffFile: 1, EffVal: "gen"}, {Name: "tb", Deps: []string{"ta"}, Lits: []string{"g.txt"}}},
+			Files: []hfile{globf("g.txt", "v0", "gen")}},
+		// ... and a later task that bumps a file an earlier task of the same run depends on
+		{Name: "P12-later-task-bumps-input", Tasks: []htask{{Name: "ta", Lits: []string{"g.txt"}}, {Name: "tb", Deps: []string{"ta"}, EffFile: 1, EffVal: "gen"}},
+			Files: []hfile{globf("g.txt", "v0", "gen")}},
 		{Name: "P8-three-tasks", Tasks: []htask{{Name: "ta", Lits: []string{"a.txt"}}, {Name: "tb", Lits: []string{"b.txt"}}, {Name: "tc", Deps: []string{"ta", "tb"}}}, Files: []hfile{lit("a.txt"), lit("b.txt")}},
 	}
 }
@@ -196,8 +209,9 @@ func (d hdisk) key() string {
 }
 
 type hmodel struct {
-	Last   []string `json:"last"`   // per task: "\x00" = never / removed, else snapshot of inputs at last success
-	Failed []string `json:"failed"` // per task: snapshot of inputs at the last failure since the last success, or "\x00"
+	Last     []string `json:"last"`      // per task: "\x00" = never / removed, else snapshot of its inputs when its last successful run started
+	LastPost []string `json:"last_post"` // ... and when that run's commands had completed (differs only if the commands rewrite an input)
+	Failed   []string `json:"failed"`    // per task: snapshot of inputs at the last failure since the last success, or "\x00"
 }
 
 const none = "\x00"
@@ -436,6 +450,9 @@ func markers(log []string, t string) (first, last bool) {
 }
 
 // evalRun checks one run execution against the model and returns the new model.
+// The run is re-played task by task over a copy of the disk, applying the declared
+// effects of task commands, so that "the inputs of t when it ran / was skipped" is
+// exact even when an earlier task of the same run rewrote them.
 func evalRun(p hprog, d hdisk, m hmodel, op hop, ex hexec) (hmodel, []hviol) {
 	var vs []hviol
 	failing := map[string]bool{}
@@ -450,63 +467,75 @@ func evalRun(p hprog, d hdisk, m hmodel, op hop, ex hexec) (hmodel, []hviol) {
 	if out.Panic != "" {
 		vs = append(vs, hviol{"*", "panic", out.Panic})
 	}
-	if !out.Failed() {
-		for _, r := range out.Results {
-			ti, ok := idx[r.Name]
-			if !ok {
-				continue
-			}
-			t := p.Tasks[ti]
-			now := inputsNow(p, t, d)
-			ran, _ := markers(out.Log, t.Name)
-			if r.Skipped {
-				// C01: a reported skip must be backed by the last success
-				if m.Last[ti] == none {
-					vs = append(vs, hviol{"C01", "skipped-never-succeeded", fmt.Sprintf("task %s reported skipped but it has not completed successfully since the cache was (re)created", t.Name)})
-				} else if m.Last[ti] != now {
-					vs = append(vs, hviol{"C01", "skipped-on-different-inputs", fmt.Sprintf("task %s reported skipped with inputs {%s}, but it last completed successfully on {%s}", t.Name, now, m.Last[ti])})
-				}
-				if ran {
-					vs = append(vs, hviol{"C02", "skipped-but-commands-ran", fmt.Sprintf("task %s reported skipped but its commands ran", t.Name)})
-				}
-				if op.Force {
-					vs = append(vs, hviol{"C14", "skipped-under-force", fmt.Sprintf("task %s reported skipped in a forced run", t.Name)})
-				}
-			} else {
-				if !ran {
-					vs = append(vs, hviol{"C02", "reported-run-but-no-command-ran", fmt.Sprintf("task %s reported as run but none of its commands executed", t.Name)})
-				}
-			}
-			if op.Force && !ran {
-				vs = append(vs, hviol{"C14", "not-executed-under-force", fmt.Sprintf("task %s did not execute its commands in a forced run", t.Name)})
-			}
-			if !op.Force {
-				// C02: unchanged since last success => skipped
-				corner := m.Failed[ti] != none && m.Failed[ti] == now
-				if declaresFiles(t) && now != "" && m.Last[ti] == now && !corner {
-					if !r.Skipped || ran {
-						vs = append(vs, hviol{"C02", "unchanged-task-rerun", fmt.Sprintf("task %s last completed successfully on exactly the current inputs {%s} but was run again (request %v)", t.Name, now, op.Req)})
-					}
-				}
-				if !declaresFiles(t) && r.Skipped {
-					vs = append(vs, hviol{"C02", "fileless-task-skipped", fmt.Sprintf("task %s has no file dependency but was skipped", t.Name)})
+	nm := hmodel{Last: append([]string{}, m.Last...), LastPost: append([]string{}, m.LastPost...), Failed: append([]string{}, m.Failed...)}
+	cur := hdisk{Files: append([]string{}, d.Files...)}
+	// execute one task in the model: returns inputs before and after its commands
+	exec := func(ti int) (pre, post string) {
+		t := p.Tasks[ti]
+		pre = inputsNow(p, t, cur)
+		if t.EffFile > 0 {
+			cur.Files[t.EffFile-1] = t.EffVal
+		}
+		post = inputsNow(p, t, cur)
+		if failing[t.Name] {
+			nm.Failed[ti] = pre
+		} else {
+			nm.Last[ti], nm.LastPost[ti], nm.Failed[ti] = pre, post, none
+		}
+		return
+	}
+	if out.Failed() {
+		// nothing is reported; the model still learns what really ran, in order
+		for _, l := range out.Log {
+			if strings.HasSuffix(l, ":1") {
+				if ti, ok := idx[strings.TrimSuffix(l, ":1")]; ok {
+					exec(ti)
 				}
 			}
 		}
+		return nm, vs
 	}
-	// model update from the side-effect log (not from spok's report)
-	nm := hmodel{Last: append([]string{}, m.Last...), Failed: append([]string{}, m.Failed...)}
-	for ti, t := range p.Tasks {
-		ran, _ := markers(out.Log, t.Name)
-		if !ran {
+	for _, r := range out.Results {
+		ti, ok := idx[r.Name]
+		if !ok {
 			continue
 		}
-		now := inputsNow(p, t, d)
-		if failing[t.Name] {
-			nm.Failed[ti] = now
-		} else {
-			nm.Last[ti] = now
-			nm.Failed[ti] = none
+		t := p.Tasks[ti]
+		now := inputsNow(p, t, cur)
+		ran, _ := markers(out.Log, t.Name)
+		if r.Skipped {
+			// C01: a reported skip must be backed by the last success
+			if m.Last[ti] == none && nm.Last[ti] == none {
+				vs = append(vs, hviol{"C01", "skipped-never-succeeded", fmt.Sprintf("task %s reported skipped but it has not completed successfully since the cache was (re)created", t.Name)})
+			} else if nm.Last[ti] != now && nm.LastPost[ti] != now {
+				vs = append(vs, hviol{"C01", "skipped-on-different-inputs", fmt.Sprintf("task %s reported skipped with inputs {%s}, but it last completed successfully on {%s}", t.Name, now, nm.Last[ti])})
+			}
+			if ran {
+				vs = append(vs, hviol{"C02", "skipped-but-commands-ran", fmt.Sprintf("task %s reported skipped but its commands ran", t.Name)})
+			}
+			if op.Force {
+				vs = append(vs, hviol{"C14", "skipped-under-force", fmt.Sprintf("task %s reported skipped in a forced run", t.Name)})
+			}
+		} else if !ran {
+			vs = append(vs, hviol{"C02", "reported-run-but-no-command-ran", fmt.Sprintf("task %s reported as run but none of its commands executed", t.Name)})
+		}
+		if op.Force && !ran {
+			vs = append(vs, hviol{"C14", "not-executed-under-force", fmt.Sprintf("task %s did not execute its commands in a forced run", t.Name)})
+		}
+		if !op.Force {
+			// C02: unchanged since last success => skipped
+			corner := nm.Failed[ti] != none && nm.Failed[ti] == now
+			if declaresFiles(t) && now != "" && nm.Last[ti] == now && nm.LastPost[ti] == now && !corner {
+				if !r.Skipped || ran {
+					vs = append(vs, hviol{"C02", "unchanged-task-rerun", fmt.Sprintf("task %s last completed successfully on exactly the current inputs {%s} but was run again (request %v)", t.Name, now, op.Req)})
+				}
+			}
+			if !declaresFiles(t) && r.Skipped {
+				vs = append(vs, hviol{"C02", "fileless-task-skipped", fmt.Sprintf("task %s has no file dependency but was skipped", t.Name)})
+			}
+		}
+		if ran {
+			exec(ti)
 		}
 	}
 	return nm, vs
@@ -551,9 +580,9 @@ func histInit(p hprog) hstate {
 			d.Files[i] = f.Vals[0]
 		}
 	}
-	m := hmodel{Last: make([]string, len(p.Tasks)), Failed: make([]string, len(p.Tasks))}
+	m := hmodel{Last: make([]string, len(p.Tasks)), LastPost: make([]string, len(p.Tasks)), Failed: make([]string, len(p.Tasks))}
 	for i := range m.Last {
-		m.Last[i], m.Failed[i] = none, none
+		m.Last[i], m.LastPost[i], m.Failed[i] = none, none, none
 	}
 	return hstate{D: d, M: m, Parent: -1}
 }
@@ -629,9 +658,9 @@ func histSearch(sb *proj.Sandbox, p hprog, prop string, cap int, withForce bool,
 						res.Outcomes["run-ok"]++
 					}
 				} else if op.Kind == "rmcache" {
-					nm = hmodel{Last: make([]string, len(p.Tasks)), Failed: append([]string{}, st.M.Failed...)}
+					nm = hmodel{Last: make([]string, len(p.Tasks)), LastPost: make([]string, len(p.Tasks)), Failed: append([]string{}, st.M.Failed...)}
 					for i := range nm.Last {
-						nm.Last[i] = none
+						nm.Last[i], nm.LastPost[i] = none, none
 					}
 				}
 				ns := hstate{D: ex.Disk, M: nm, Parent: cur, Op: op, Choice: ex.Choice, Depth: st.Depth + 1, Forced: st.Forced || op.Force}
@@ -802,7 +831,7 @@ func histReplay(path string) int {
 		if s.Op.Kind != "run" {
 			if s.Op.Kind == "rmcache" {
 				for k := range st.M.Last {
-					st.M.Last[k] = none
+					st.M.Last[k], st.M.LastPost[k] = none, none
 				}
 			}
 			st.D = applyEdit(st.D, s.Op)
